@@ -1689,7 +1689,11 @@ fn thread_cpu_us() -> u64 {
 
 /// Builds the shape with `n` objects (every stored handle adopted), keeps one outside handle,
 /// drops it and reports what the collection cost. Runs on the calling thread.
-fn scale_one(shape: &str, n: usize, sink_on: bool) -> String {
+fn scale_one(shape0: &str, n: usize, sink_on: bool) -> String {
+    // "<shape>+held": a second outside handle (to a member in the middle) survives the first
+    // drop: nothing may be destroyed by it (C01 at scale); the group dies with the second drop
+    let held = shape0.ends_with("+held");
+    let shape = shape0.trim_end_matches("+held");
     let w = world();
     reset_world(w);
     w.quiet = true;
@@ -1778,19 +1782,34 @@ fn scale_one(shape: &str, n: usize, sink_on: bool) -> String {
     let keep = nodes[0].take().unwrap();
     let weak0 = Rc::downgrade(&keep);
     let weakl = Rc::downgrade(&*tmp(n - 1));
+    let extra = if held { Some(Rc::clone(&*tmp(n / 2))) } else { None };
     unsafe {
         SCALE = ScaleCnt::default();
         SCALE.quiet_hdrop = true;
     }
-    let t0 = thread_cpu_us();
-    drop(keep); // the orphaning drop
+    let mut premature = 0u64;
+    let mut t0 = thread_cpu_us();
+    drop(keep); // the orphaning drop (or, with "+held", a drop that must not collect anything)
+    if let Some(x) = extra {
+        premature = unsafe { SCALE.nd };
+        let intact = x.canary == (MAGIC ^ x.id as u64) && weak0.upgrade().is_some() && weakl.upgrade().is_some();
+        if !intact {
+            premature += 1;
+        }
+        unsafe {
+            SCALE = ScaleCnt::default();
+            SCALE.quiet_hdrop = true;
+        }
+        t0 = thread_cpu_us();
+        drop(x); // now the group is orphaned
+    }
     let cpu = thread_cpu_us() - t0;
     let c = unsafe { SCALE };
     let alive = weak0.upgrade().is_some() || weakl.upgrade().is_some();
     verif::set_sink(Some(sink));
     format!(
-        "{{\"k\":\"scale\",\"shape\":\"{}\",\"n\":{},\"links\":{},\"ntrace\":{},\"npop\":{},\"nvisit\":{},\"maxdepth\":{},\"nd\":{},\"alive\":{},\"cpu_us\":{}}}",
-        shape, n, links, c.ntrace, c.npop, c.nvisit, c.maxdepth, c.nd, alive, cpu
+        "{{\"k\":\"scale\",\"shape\":\"{}\",\"n\":{},\"links\":{},\"ntrace\":{},\"npop\":{},\"nvisit\":{},\"maxdepth\":{},\"nd\":{},\"alive\":{},\"premature\":{},\"cpu_us\":{}}}",
+        shape0, n, links, c.ntrace, c.npop, c.nvisit, c.maxdepth, c.nd, alive, premature, cpu
     )
 }
 
